@@ -92,10 +92,8 @@ ENTRIES = [
                               "            if bytes_left <= self._read_size:"), 'C04-D3'),
     # ------------------------------------------------------------------ D4
     B('read-listener-installed-late', (CL,
-      "        stream.data_event_dispatcher.add_read_listener(read_callback)\n\n"
-      "        self._response = response = yield from stream.read_response()\n        response.request = request\n",
-      "        self._response = response = yield from stream.read_response()\n        response.request = request\n"
-      "        stream.data_event_dispatcher.add_read_listener(read_callback)\n"), 'C04-D4'),
+      "        stream.data_event_dispatcher.add_read_listener(header_callback)\n\n        while True:\n            del header_data[:]\n            self._response = response = yield from stream.read_response()\n",
+      "        while True:\n            del header_data[:]\n            self._response = response = yield from stream.read_response()\n            stream.data_event_dispatcher.add_read_listener(header_callback)\n"), 'C04-D4'),
     B('end-request-before-body', (CL,
       "        if request.body:\n            assert 'Content-Length' in request.fields\n            length = int(request.fields['Content-Length'])\n"
       "            yield from stream.write_body(request.body, length=length)\n\n"
